@@ -36,11 +36,13 @@ func init() {
 		ID:    prop,
 		Level: "model_checking",
 		Rule: "product space: context (install on empty ledger | install with another release's 2-revision ledger | install --replace after uninstall --keep-history on 1- and 2-revision ledgers | " +
-			"upgrade adding the slots on 1- and 2-revision ledgers, keeping or dropping the base resource | rollback re-creating the slots) x take-ownership on/off x " +
-			"chart over a subset (>=2 in quick, >=1 in thorough) of the slots ConfigMap a, Service s, Widget w (unstructured) + one pre-* hook x " +
-			"every placement vector in {absent,foreign,other-release,other-ns,label-only,annos-only,owned}^3 (slots outside the chart are bystanders); " +
-			"from every state reached by the operation under test the follow-ups uninstall, rollback, upgrade-updating-the-slots and upgrade-removing-the-slots are executed; " +
-			"every transition is the real action on a clone of the state. distinct = (context, chart, take-ownership, placement vector, step); non-trivial = at least one slot occupied",
+			"upgrade adding the slots on 1- and 2-revision ledgers, keeping or dropping the base resource | rollback re-creating the slots; thorough adds: upgrade changing the base, ledgers with a failed last revision, charts without hook) " +
+			"x take-ownership on/off x chart over a subset of the slots ConfigMap a, Service s, Widget w (unstructured) (+ one pre-* hook) " +
+			"x every placement vector in {absent,foreign,other-release,other-ns,label-only,annos-only,owned}^3 (thorough: + label-wrong-value, no-namespace-annotation = 9^3); slots outside the chart are bystanders. " +
+			"quick: memory backend x subsets of >=2 slots, Secret backend x the 3-slot chart; thorough: memory x all 7 subsets x 9^3, Secret backend x subsets of >=2 slots x 7^3. " +
+			"From every state reached by the operation under test the follow-ups uninstall, rollback, upgrade-updating-the-slots and upgrade-removing-the-slots are executed; " +
+			"every transition is the real action on a clone of the state; states = canonical worlds. distinct = (backend, context, chart, take-ownership, placement vector, step); " +
+			"non-trivial = at least one slot occupied (counter cases_with_occupied_chart_slot)",
 		Run:    run,
 		Replay: replay,
 		Assumptions: []string{
@@ -654,6 +656,20 @@ func eval(t *opspace.Transition) verdict {
 	return v
 }
 
+// DeleteConfinement evaluates clause (c) alone on any fault-free transition of
+// any history-based check (C01-C03 can call it from their Check functions):
+// it returns one line per DELETE request outside the release's stored
+// manifests / operated hooks and per touched object that no manifest names.
+func DeleteConfinement(t *opspace.Transition) []string {
+	var out []string
+	for _, p := range eval(t).Problems {
+		if p.Clause == "C" {
+			out = append(out, p.Key+" "+p.What)
+		}
+	}
+	return out
+}
+
 // ---------- reporting ----------
 
 type replayData struct {
@@ -738,21 +754,28 @@ func replay(c *core.Ctx, data json.RawMessage) []core.Violation {
 
 // ---------- the explorer ----------
 
-type params struct {
-	drivers []string
-	ctxs    []ctxDef
-	masks   []int
-	kinds   int
+// block is one product sub-space: driver x contexts x chart masks x kinds^3 placements.
+type block struct {
+	driver string
+	ctxs   []ctxDef
+	masks  []int
+	kinds  int
 }
 
-func paramsOf(thorough bool) params {
-	p := params{drivers: []string{"memory"}, ctxs: contexts(thorough), masks: []int{3, 5, 6, 7}, kinds: 7}
-	if thorough {
-		p.drivers = []string{"memory", "secrets"}
-		p.masks = []int{1, 2, 4, 3, 5, 6, 7}
-		p.kinds = 9
+func blocksOf(thorough bool) []block {
+	if !thorough {
+		return []block{
+			{driver: "memory", ctxs: contexts(false), masks: []int{3, 5, 6, 7}, kinds: 7},
+			{driver: "secrets", ctxs: contexts(false), masks: []int{7}, kinds: 7},
+		}
 	}
-	return p
+	// thorough: the memory backend with every chart subset, 9 placement kinds, hook and no-hook charts and the
+	// extra ledgers; the Secret backend (records live in the same cluster, so "no mutating request" also covers
+	// record writes over HTTP) with the quick alphabet
+	return []block{
+		{driver: "memory", ctxs: contexts(true), masks: []int{1, 2, 4, 3, 5, 6, 7}, kinds: 9},
+		{driver: "secrets", ctxs: contexts(false), masks: []int{3, 5, 6, 7}, kinds: 7},
+	}
 }
 
 type prefixState struct {
@@ -828,28 +851,27 @@ func (x *explorer) prefix(drv string, cx ctxDef, mask int) *prefixState {
 }
 
 func run(c *core.Ctx) {
-	p := paramsOf(c.Thorough())
-	pls := placements(p.kinds)
+	blocks := blocksOf(c.Thorough())
 	c.Bound("slots", "ConfigMap a, Service s, Widget w")
-	c.Bound("placement_kinds_per_slot", fmt.Sprint(p.kinds))
-	c.Bound("placement_vectors", fmt.Sprint(len(pls)))
-	c.Bound("charts_slot_subsets", fmt.Sprint(len(p.masks)))
-	c.Bound("contexts_incl_take_ownership", fmt.Sprint(len(p.ctxs)))
-	c.Bound("drivers", strings.Join(p.drivers, ","))
 	c.Bound("ledger_depth_before_operation", "0..2 revisions")
 	c.Bound("followup_depth", "1 operation after the operation under test")
+	for i, b := range blocks {
+		c.Bound(fmt.Sprintf("block%d", i+1), fmt.Sprintf("driver=%s contexts(incl. take-ownership on/off)=%d chart_slot_subsets=%d placement_kinds=%d placement_vectors=%d",
+			b.driver, len(b.ctxs), len(b.masks), b.kinds, b.kinds*b.kinds*b.kinds))
+	}
 	x := &explorer{c: c, prefixes: map[string]*prefixState{}}
-	for _, drv := range p.drivers {
-		for _, cx := range p.ctxs {
-			if c.Only != "" && !strings.Contains(cx.Name, c.Only) {
+	for _, b := range blocks {
+		pls := placements(b.kinds)
+		for _, cx := range b.ctxs {
+			if c.Only != "" && !strings.Contains(b.driver+"|"+cx.Name, c.Only) {
 				continue
 			}
-			for _, mask := range p.masks {
+			for _, mask := range b.masks {
 				for _, pl := range pls {
 					if !c.NextMine() {
 						continue
 					}
-					x.scenario(drv, cx, mask, pl)
+					x.scenario(b.driver, cx, mask, pl)
 				}
 			}
 		}
